@@ -35,7 +35,12 @@ Definition dec_res (n : N) : oresult :=
   | _ => if (n <=? 6)%N then R (Sel (tok (n - 1))) else Weird
   end.
 
+(* one row of the exhaustive sweep: all 8 x 7 (server_alpn, client_alpn) codes, server-major *)
+Definition combos : list (N * N) :=
+  flat_map (fun s => map (fun c => (s, c)) [0; 1; 2; 3; 4; 5; 6]%N) [0; 1; 2; 3; 4; 5; 6; 7]%N.
+
 Inductive case :=
+| KR (offers : list N) (h2 : bool) (res : list N)
 | K (offers : list N) (server client : N) (h2 : bool) (res : N)
 | G (offers : list bytes) (server client : option bytes) (h2 : bool) (res : oresult)
 | U (server_offers : option (list bytes)) (client_offers : list bytes) (h2 : bool) (observed : list bytes)
@@ -45,6 +50,12 @@ Inductive case :=
 
 Definition check_case (c : case) : bool :=
   match c with
+  | KR offers h res =>
+      list_eqb oresult_eqb
+        (map (fun sc => R (alpn_select_callback
+                             {| client_alpn := dec_client (snd sc); server_alpn := dec_server (fst sc); http2 := h |}
+                             (map tok offers))) combos)
+        (map dec_res res)
   | K offers s cl h res =>
       oresult_eqb
         (R (alpn_select_callback {| client_alpn := dec_client cl; server_alpn := dec_server s; http2 := h |}
